@@ -108,19 +108,6 @@ func (f *etcdFront) close() {
 	}
 }
 
-// kindOf: the etcd wire format has one PUT for create and update; the kind is taken from the write's own response.
-func (r *bkRig) kindOf(rev uint64) int {
-	for _, e := range r.sigma {
-		if e.rev == rev {
-			if e.ty == 2 {
-				return 1
-			}
-			return e.ty
-		}
-	}
-	return 1
-}
-
 func (f *etcdFront) eventsOf(id int64) []ev {
 	var out []ev
 	for _, resp := range f.st.snapshot() {
@@ -138,7 +125,7 @@ func (f *etcdFront) eventsOf(id int64) []ev {
 					x.val, x.kvrev = e.PrevKv.Value, uint64(e.PrevKv.ModRevision)
 				}
 			} else {
-				x.ty = f.r.kindOf(x.rev)
+				x.ty = 1 // the wire format has one PUT for create and update; the Coq side compares modulo that (wire_ev)
 				if e.Kv != nil {
 					x.val, x.kvrev = e.Kv.Value, uint64(e.Kv.ModRevision)
 				}
@@ -214,7 +201,7 @@ func (f *etcdFront) watch(S uint64, P []byte) *bw {
 	if f.canceled(wid) > 0 {
 		w.dead = true
 		r.sc.lab(lW("LCtxDelete", w.id))
-		r.sc.obs(obs{w: w.id, status: u64(0)})
+		r.sc.obs(obs{w: w.id, S: w.S, P: w.P, status: u64(0), hasGot: true, wire: true})
 		r.kinds["refused"] = true
 		return w
 	}
@@ -231,7 +218,7 @@ func (r *bkRig) finishEtcd(w *bw) {
 	r.sc.labs(lW("LCancel", w.id), lW("LCtxDelete", w.id))
 	r.emitDrain(w)
 	r.sc.labs(lW("LProc", w.id), lW("LConsume", w.id))
-	r.sc.obs(obs{w: w.id, status: u64(1), got: w.wire(), hasGot: true})
+	r.sc.obs(obs{w: w.id, S: w.S, P: w.P, status: u64(1), got: w.wire(), hasGot: true, wire: true})
 	w.dead = true
 }
 
